@@ -48,6 +48,29 @@ CHECKS = {
         design_ref="DESIGN.md section 6, C22",
         note=TB + "The Logos-generated automaton and regex-syntax's Unicode tables are not verified; tokenizer.txt literals/regexes are compared with the model's tables on every run. Axioms: none.",
         technique="Coq proof (induction on fuel/text, Cover invariant) + exhaustive model/implementation correspondence + verified checker on real tokens"),
+    "C27": dict(
+        category="proof",
+        text=("Coq theorems about a complete model of codegen/mangle.rs and FileName::get_components: a verified decoder inverts "
+              "mangling on every Safe descriptor (no bound on path/name length or indices), hence injectivity there; a mangled name is never "
+              "main/_CI..E/.str_N/.i128_N/.member_strN; for arbitrary non-empty part lists equal strings are position-wise equal up to "
+              "the digit escape. Full injectivity is refuted (digit-escape, dot-dash, src-drop witnesses). Model tied to the real code "
+              "through a cfg hook: exhaustive paths<=3 over a 12/20-name pool x 11 descriptor shapes + random descriptors, pairwise "
+              "collision search on the implementation's symbols with an extracted mechanism classifier, decoder run on real strings, "
+              "colliding pairs rebuilt end to end (DuplicateDefinition)."),
+        design_ref="DESIGN.md section 6 C27, section 10.4",
+        note=TB + "The collision classifier is extracted but only verified on the witnesses; user-chosen extern names are outside the statement. Axioms: none.",
+        technique="Coq proof (decoder round trip, induction over parts) + exhaustive correspondence + collision-search oracle"),
+    "C28": dict(
+        category="proof",
+        text=("Coq theorems about a model of lower_import (#import/#mod), join+path_clean on absolute paths, SubDir and the "
+              "compile work list against a file-system oracle: resolution equals walking the path from the importer's directory; "
+              "every outcome (accept, not .capy, not found, outside, mod not alphanumeric/missing/without mod.capy) characterised by an "
+              "iff; the work list returns exactly the reachable files, duplicate-free, for any number of files (fuel justified by the "
+              "not-yet-compiled measure). Tied to the real capy CLI on generated directory trees (events, per-import target, diagnostics, "
+              "exit status) and to an independent evaluation of the property on the real file system."),
+        design_ref="DESIGN.md section 6 C28, section 10.4",
+        note=TB + "file.name member resolution is only exercised end to end; symlinks/OS path semantics not modelled. Axioms: none.",
+        technique="Coq proof (fold/stack path semantics, BFS invariant with measure) + end-to-end CLI correspondence + file-system oracle"),
 }
 
 NOT_YET = {}
@@ -98,7 +121,7 @@ def main():
         f.write("\n")
 
 
-HOOK_COMMITS = ["1c1e07d"]
+HOOK_COMMITS = ["1c1e07d", "c523f62", "efaef7a", "9e918b4", "c8b1eb9"]
 
 if __name__ == "__main__":
     main()
